@@ -350,6 +350,7 @@ def run(ctx):
                "keys are inserted after %s() but looked up after %s(): a path through a symlink (or otherwise non-canonical spelling) never matches" % (got, want)
                if got != want else "inserted and looked-up keys both go through %s()" % want)
     canonical_whole_name(ctx)
+    dotdot_does_not_cancel_dotdot(ctx)
 
 def canonical_whole_name(ctx):
     """R17.6: once-only inclusion and `is this a command-line file` compare canonical names.  Two spellings of one file
@@ -369,3 +370,49 @@ def canonical_whole_name(ctx):
             whole = t.get("k") == "this" or (t.get("k") == "un" and (strip_casts(peel(t.get("e"))) or {}).get("k") == "this")
         ctx.ob("R17.6", "make_canonical|realpath-of-whole-name", bool(whole), f.loc(c), "realpath(%s, ...)" % (show(a0)[:40] if a0 is not None else "?"))
 
+
+
+def dotdot_does_not_cancel_dotdot(ctx):
+    """R17.8: Filename::standardize() backs up over `name/..`.  Backing up is only right over a NAME: `../..` must stay
+    two levels up (a second `..` must not cancel the first), and nothing can be popped from an empty list.  With the test
+    gone `../../inc/x.h` becomes `inc/x.h` - another file - and the working-directory probe for such an include misses.
+    (Seed S7-C17.)"""
+    db = ctx.db
+    ctx.rule("R17.8", "in Filename::standardize every components.pop_back() is behind `!components.empty()` and behind `components.back() != \"..\"`")
+    f = db.fn("Filename::standardize")
+    comp = None
+    for y in f.walk():
+        if y.get("k") == "decls":
+            for d in y["d"]:
+                if "vector" in (d.get("ct") or d.get("t") or "") and d["n"].startswith("component"):
+                    comp = d
+    if comp is None:
+        ctx.broken("R17.8: the component list of Filename::standardize was not found")
+    pops = [c for c in f.walk() if c.get("k") == "call" and callee_short(c) == "pop_back" and (local_ref(c.get("this")) or {}).get("d") == comp["d"]]
+
+    def nonempty(atom, truth):
+        return atom is not None and atom.get("k") == "call" and callee_short(atom) == "empty" and (local_ref(atom.get("this")) or {}).get("d") == comp["d"] and not truth
+
+    def back_is_not_dotdot(atom, truth):
+        if atom is None or atom.get("k") != "call" or callee_short(atom) not in ("operator==", "operator!="):
+            return False
+        args = atom.get("a", [])
+        if "this" in atom:
+            args = [atom["this"]] + list(args)
+        if len(args) != 2:
+            return False
+        has_back = any((strip_casts(peel(a)) or {}).get("k") == "call" and callee_short(strip_casts(peel(a))) == "back"
+                       and (local_ref(strip_casts(peel(a)).get("this")) or {}).get("d") == comp["d"] for a in args)
+        has_lit = any(any(z.get("k") == "str" and z.get("v") == ".." for z in walk(a)) for a in args)
+        if not (has_back and has_lit):
+            return False
+        eq = callee_short(atom) == "operator=="
+        return (eq and not truth) or (not eq and truth)
+    e1 = G.edges_where(f, nonempty)
+    e2 = G.edges_where(f, back_is_not_dotdot)
+    for i, c in enumerate(pops):
+        ctx.ob("R17.8", "standardize|pop_back#%d|list-not-empty" % i, bool(e1) and G.gated(f, c, e1), f.loc(c), "pop_back() behind !components.empty()")
+        ok = bool(e2) and G.gated(f, c, e2)
+        ctx.ob("R17.8", "standardize|pop_back#%d|previous-is-not-dotdot" % i, ok, f.loc(c),
+               "pop_back() is %sbehind `components.back() != \"..\"`" % ("" if ok else "NOT "))
+    ctx.floor("R17.8", "pop_back sites in standardize", len(pops), 2)
